@@ -45,6 +45,79 @@ func isGuardCall(in ssa.Instruction) (string, bool) {
 	if why, ok := guardFuncNames[n]; ok && why != "" {
 		return n, true
 	}
+	if via, ok := guardWrapper(callee, 0); ok {
+		return via + " (through " + n + ")", true
+	}
+	return "", false
+}
+
+// guardWrapper: every path through f (a declared function of this module)
+// makes a guard call before it returns — a call of f guards what follows it
+// exactly as the guard call written in its place would (`pushFrame` around
+// PushFID).
+var guardWrapperMemo = map[*ssa.Function]string{}
+
+// recursiveFns: members of recursive components (set by runREC).  A recursive
+// function is never a guard wrapper: what its guard bounds is its own
+// activation, which is over when it returns (eval's nesting counter).
+var recursiveFns = map[*ssa.Function]bool{}
+
+func guardWrapper(f *ssa.Function, depth int) (string, bool) {
+	if f == nil || len(f.Blocks) == 0 || depth > 2 || f.Parent() != nil || recursiveFns[f] {
+		return "", false
+	}
+	if v, ok := guardWrapperMemo[f]; ok {
+		return v, v != ""
+	}
+	guardWrapperMemo[f] = ""
+	type gp struct {
+		b    *ssa.BasicBlock
+		name string
+	}
+	var gs []gp
+	for _, b := range f.Blocks {
+		for _, ins := range b.Instrs {
+			ci, ok := ins.(ssa.CallInstruction)
+			if !ok {
+				continue
+			}
+			if _, isDefer := ins.(*ssa.Defer); isDefer {
+				continue
+			}
+			if _, isGo := ins.(*ssa.Go); isGo {
+				continue
+			}
+			callee := ci.Common().StaticCallee()
+			if callee == nil {
+				continue
+			}
+			n := ssaQualName(callee)
+			if why, ok := guardFuncNames[n]; ok && why != "" {
+				gs = append(gs, gp{b, n})
+			} else if via, ok := guardWrapper(callee, depth+1); ok {
+				gs = append(gs, gp{b, via})
+			}
+		}
+	}
+	for _, g := range gs {
+		all, nret := true, 0
+		for _, b := range f.Blocks {
+			if len(b.Instrs) == 0 {
+				continue
+			}
+			if _, isRet := b.Instrs[len(b.Instrs)-1].(*ssa.Return); !isRet {
+				continue
+			}
+			nret++
+			if b != g.b && !g.b.Dominates(b) {
+				all = false
+			}
+		}
+		if all && nret > 0 {
+			guardWrapperMemo[f] = g.name
+			return g.name, true
+		}
+	}
 	return "", false
 }
 
@@ -129,6 +202,13 @@ func runREC(c *Ctx) []Obligation {
 		return p != "" && strings.HasPrefix(p, modPath)
 	}
 	comps := callSCCs(cg, inModule)
+	recursiveFns = map[*ssa.Function]bool{}
+	guardWrapperMemo = map[*ssa.Function]string{}
+	for _, comp := range comps {
+		for _, nd := range comp {
+			recursiveFns[nd.Func] = true
+		}
+	}
 	lvalT := c.LookupType("lisp.LVal")
 	relevantFn := func(f *ssa.Function) bool {
 		p := funcPkgPath(f)
